@@ -410,7 +410,13 @@ def inline_new_temporaries(fnode, base_names, stats):
       # not inside a loop body / nested def of that statement (evaluated once, here)
       if isinstance(ust, (ast.For, ast.While, ast.AsyncFor)) and not any(u is all_uses[0] for u in ast.walk(ust.iter if hasattr(ust, 'iter') else ust.test)):
         continue
-      if isinstance(ust, (ast.FunctionDef, ast.AsyncFunctionDef, ast.ClassDef)):
+      if isinstance(ust, (ast.FunctionDef, ast.AsyncFunctionDef, ast.ClassDef, ast.Try)):
+        continue
+      # inside a compound statement only its header expression is evaluated "next": a use in the body of a with/if runs after the
+      # context manager was entered / the test was evaluated (moving a call under a lock is not the same program)
+      if isinstance(ust, ast.With) and not any(u is all_uses[0] for it in ust.items for u in ast.walk(it.context_expr)):
+        continue
+      if isinstance(ust, ast.If) and not any(u is all_uses[0] for u in ast.walk(ust.test)):
         continue
       _replace_node(fnode, all_uses[0], S.value)
       blk.remove(S)
